@@ -8,12 +8,12 @@ CHECKS = {
          "held only on the configurations and file sets generated; ADPCM is lossy (length only); names avoid listfile syntax"),
  "C03": ("exploration", "codec sweep selector x content class x length ladder with identity/size/self-acceptance oracle", "identity + size-rule oracle over a boundary-length ladder, panic trap", "§6 C03",
          "native run only; held on the ladder (<= 2^17 quick, <= 2^21 thorough) and 10 content classes"),
- "C04": ("exploration", "exhaustive small sub-spaces (tables, all <=2-byte strings, all 3-byte UTF-8 scalars, cipher lengths 0..17 x 77 keys) plus random long inputs against an independent reference implementation", "differential oracle vs independent reference (regenerated crypt table, lookup3 transcription)", "§6 C04",
+ "C04": ("exploration", "exhaustive small sub-spaces (tables, all <=2-byte strings, all 3-byte UTF-8 scalars, cipher lengths 0..17 x 77 keys) plus random long inputs against an independent reference implementation; a slice built with the non-default `simd` feature compares the byte-string hash (incl. invalid UTF-8, vector thresholds, alignments) and runs under ASan in thorough", "differential oracle vs independent reference (regenerated crypt table, lookup3 transcription)", "§6 C04",
          "reference written from the published algorithms in harness/vh-mpq/src/lib.rs; a shared misreading would go unnoticed"),
  "C02": ("exploration", "differential exchange of archives in both directions with an independent MPQ implementation (lib/refmpq.py): every builder-written archive of the published-format subset is parsed and extracted by the reference, every reference-written archive is read by the library; mismatches are diagnosed against named deviation models so other changes stay visible", "differential oracle vs independent implementation, both directions", "§6 C02",
          "trusted base is an independent reading of the public MPQ format, not StormLib; subset V1/V2, classic tables, none/zlib/bzip2, no sector CRC"),
- "C05": ("exploration", "structured mutation of valid seed files of all 12 formats (every prefix, boundary values at every aligned offset of header/table/chunk-header/count regions located by an independent walker, chunk reorder/duplicate/delete/resize, seeded havoc) driven through every public open/parse/list/read entry point, each batch in a forked child", "panic trap, abort / stack-overflow / allocation-abort attribution per forked batch, heap-request monitor (single request >= 256 MiB or growth >= 512 MiB for inputs <= 4 MiB), per-call time budget with hang confirmation", "§6 C05 / §3 M1-M4",
-         "release profile; inputs <= 4 MiB; MPQ seeds from the builder and from the independent writer lib/refmpq.py; three known sites remain (PKWare decoder x2, DXT output sized from legal header dimensions)"),
+ "C05": ("exploration", "structured mutation of valid seed files of all 12 formats (every prefix, boundary values at every aligned offset of header/table/chunk-header/count regions located by an independent walker, chunk reorder/duplicate/delete/resize, seeded havoc) driven through every public open/parse/list/read entry point (~150, audited against the crates' public API), each batch in a forked child; thorough adds a coverage-guided stage (libFuzzer + AddressSanitizer over the same drivers) whose kept inputs and artifacts are replayed natively under the same monitors", "panic trap, abort / stack-overflow / allocation-abort attribution per forked batch, heap-request monitor (single request >= 256 MiB or growth >= 512 MiB for inputs <= 4 MiB), per-call time budget with hang confirmation", "§6 C05 / §3 M1-M4",
+         "release profile; inputs <= 4 MiB; MPQ seeds from the builder and from the independent writer lib/refmpq.py; four known sites remain (PKWare decoder x2, DXT and JPEG output sized from announced dimensions)"),
  "C06": ("exploration", "operation histories on MutableArchive (bounded-exhaustive singles and pairs over a 98-letter alphabet on up to 16 starting archives, sampled triples, long random histories) checked against a plain map after close + reopen", "reference-model monitor (persistent map) over operation histories; probe-loop step-counter hook for termination", "§6 C06",
          "five history-level trigger predicates are known findings (V3+ modification, compact without listfile, compact on a stale view, block-table growth past the slack, rename of an encrypted file): histories in which one of them holds are reported under it and not checked further"),
  "C07": ("exploration", "rebuild sweep source configuration x target version x overrides x verify/skip filters with independent re-read of source and target, summary arithmetic and compare_archives agreement", "reference re-read oracle (set/bytes comparison) + summary-count monitor", "§6 C07",
@@ -32,7 +32,7 @@ CHECKS = {
          "names that would leave /verif/scratch if honoured are never generated (root-anchored names are anchored inside the sandbox)"),
  "C14": ("exploration", "generated ADT builder inputs (isolated features per version, covering arrays over root and MCNK optional chunks, invalid inputs) x versions: build->bytes->parse equality, 1-4 parse->rebuild rounds stable and non-growing, independent chunk walker for framing, MHDR and MCIN entries", "reference-model monitor (builder input) + independent chunk walker", "§6 C14",
          "exclusions listed in evidence (detected-version label, serializer-computed fields, neutral MTXF, MCIN size convention)"),
- "C19": ("exploration", "model-based single-thread histories over all 30 exported functions with stale/forged/null handles and canary buffers; threaded runs with call/return logs checked offline (per-handle linearisation of the cursor, no success after close, unique ids); ASan over the same histories, TSan over threaded runs and a Miri slice (thorough)", "handle-table model + canaries + offline linearizability/ordering checker over call logs; AddressSanitizer, ThreadSanitizer, Miri", "§6 C19",
+ "C19": ("exploration", "model-based single-thread histories over all 30 exported functions with stale/forged/null handles and canary buffers; threaded runs with call/return logs checked offline (per-handle linearisation of the cursor, no success after close, unique ids); ASan and an overflow-checks build over the same histories, TSan over threaded runs and a Miri slice (thorough)", "handle-table model + canaries + offline linearizability/ordering checker over call logs; AddressSanitizer, ThreadSanitizer, Miri", "§6 C19",
          "seek semantics beyond either end not compared; re-entrant callbacks not driven; calls that cannot return on this tree are probed separately on a helper thread"),
  "C20": ("exploration", "the warcraft-rs binary driven on generated inputs: create->extract byte identity over versions x compressions x listfile x extract options, list/info against the library's view, and every sub-command of every format family on valid, truncated and corrupted inputs judged against the verdict of the library call it wraps (computed in-process) and against the promised output (exists, parses, equals the library writer's bytes)", "process-boundary monitor: exit status / output oracle against the library's own answer; valgrind memcheck on the raw hex-dump paths (thorough)", "§6 C20",
          "a panic exit counts as non-zero but is reported as panic-exit; names avoid listfile syntax and option-like prefixes; known upstream findings (PKWare, bomb ratio) kept out of the workload"),
@@ -40,7 +40,7 @@ CHECKS = {
          "no control over the OS scheduler: diversity is induced and measured; TSan reports inside crossbeam-epoch reclamation (fences TSan does not model) are suppressed and counted"),
  "C10": ("fault_enumeration", "byte corruption at enumerated offsets of every protected region (file data, sector offset/CRC tables, attributes, V4 header and tables, signature) of archives carrying each kind of integrity metadata, plus paired corruptions (checksum zeroed + data flipped, attribute forged to match); verifier per kind as the statement names it; sign/verify/bit-flip sweep of the weak-signature functions", "fault enumeration (every k-th / every offset) with a detection oracle: error or invalid status, or content bit-identical", "§6 C10",
          "a crash while reading a corrupted archive is tallied (C05's clause) but not judged here; multi-sector sector-checksum verification is a known finding (never compared)"),
- "C12": ("fault_enumeration", "every state-changing syscall of build/compact (V1-V4, dest absent/present) is killed or failed (ENOSPC, EIO) with strace inject, plus two-fault sequences and RLIMIT_FSIZE short-write sweeps; a separate process judges the destination path afterwards (old | absent | complete new archive)", "syscall-level fault injection (strace) + post-mortem file-system oracle", "§6 C12",
+ "C12": ("fault_enumeration", "every state-changing syscall of build/compact (V1-V4, dest absent/present/symlink/.tmp-named) and of the C API's SFileCreateArchive is killed or failed (ENOSPC, EIO) with strace inject, plus two-fault sequences and RLIMIT_FSIZE short-write sweeps; a separate process judges the destination path afterwards (old | absent | complete new archive)", "syscall-level fault injection (strace) + post-mortem file-system oracle", "§6 C12",
          "process death and I/O errors only, not power loss; faults are confirmed to have fired inside the marker window from each run's own trace"),
  "C18": ("exploration", "generated WDT/WDL definitions x versions round trip against a plain model with an independent chunk walker, all version pairs converted, and the coordinate pair enumerated for all 4096 tiles (corner, centre, range)", "reference-model monitor + independent chunk walker; exhaustive 64x64 enumeration for the coordinate clause", "§6 C18",
          "reader's version guess is not stored in the file and is not compared; definitions stay within what each version's format carries"),
